@@ -34,7 +34,11 @@ func (p *DecisionMakingParams) AllAlternatives() []AlternativeWithCriteria {
 	if toConsider == nil {
 		toConsider = make([]AlternativeWithCriteria, 0)
 	}
-	return append(toConsider, notConsider...)
+	// always a fresh slice: callers overwrite elements of the result, which must never reach
+	// the considered alternatives of this (or, through shared arrays, an earlier) state
+	all := make([]AlternativeWithCriteria, 0, len(toConsider)+len(notConsider))
+	all = append(all, toConsider...)
+	return append(all, notConsider...)
 }
 
 type RawMethodParameters = map[string]interface{}
